@@ -420,7 +420,8 @@ def fold_cipher_dimension(acc):
         else:
             rest.append(v)
     for base in sorted(groups):
-        fams = sorted(set(f for f, _ in groups[base]))
+        # a session whose re-key changed the family ("a>b") counts for each family it used
+        fams = sorted(set(x for f, _ in groups[base] for x in f.split(">")))
         vs = [v for _, v in sorted(groups[base], key=lambda fv: fv[0])]
         key = base if set(fams) >= set(FAMILIES) else "%s:cipher=%s" % (base, "+".join(fams))
         rep = dict(vs[0])
